@@ -22,8 +22,10 @@ Lemma exchange_sound ops h s : exec H cf ops = (h, s) ->
     /\ (exists ecb, In ecb h1 /\ e_op ecb = Callback (q_id q) /\ e_out ecb = OCode c)
     /\ find_req (e_pre e) (q_id q) = Some q /\ q_done q = true
     /\ (exists elog, In elog h1 /\ e_op elog = Login (q_id q) (q_sub q) (q_auth q) /\ e_out elog = OLogin true)
-    /\ (exists eau, In eau h1
-          /\ e_op eau = Authorize (q_client q) (q_uri q) (q_scopes q) (q_nonce q) (q_chal q) (q_extra q)
+    /\ (exists eau uri0 scopes0 nonce0 chal0, In eau h1
+          /\ e_op eau = Authorize (q_client q) uri0 scopes0 nonce0 chal0 (q_extra q)
+          /\ q_uri q = eff_uri uri0 (q_extra q) /\ q_scopes q = eff_scopes scopes0 (q_extra q)
+          /\ q_nonce q = eff_nonce nonce0 (q_extra q) /\ q_chal q = eff_chal chal0 (q_extra q)
           /\ e_out eau = OAuthz (Some (q_id q)))
     /\ cred_proves cf cr (q_client q) = true
     /\ uri = q_uri q
@@ -39,11 +41,13 @@ Proof.
   apply reach_inv in Hr1. apply step_trans in Hstep. rewrite Hop, Hout in Hstep.
   apply trans_code_inv in Hstep as [cd [q [c [-> [Hcr [Hfc [Hp [Hu [Hch [Hpub Hiss]]]]]]]]]].
   destruct (code_req_in _ _ _ Hcr) as [Hcin Hqf].
-  destruct (i_codes _ _ Hr1 _ _ Hcin) as [_ [[q' [Hq' Hd]] Hcb]].
+  destruct (i_codes _ _ _ Hr1 _ _ Hcin) as [_ [[q' [Hq' Hd]] Hcb]].
   rewrite Hqf in Hq'. injection Hq' as <-.
   destruct (find_req_in _ _ _ Hqf) as [Hqin _].
-  destruct (i_req _ _ Hr1 _ Hqin) as [_ [Hau Hlog]].
-  exists cd, q. repeat (split; [solve [auto] | ]).
+  destruct (i_req _ _ _ Hr1 _ Hqin) as [_ [[eau [Hau1 [[uri0 [scopes0 [nonce0 [chal0 Hmade]]]] Hau3]]] Hlog]].
+  exists cd, q. do 5 (split; [solve [auto] | ]).
+  split. { exists eau, uri0, scopes0, nonce0, chal0. tauto. }
+  repeat (split; [solve [auto] | ]).
   split. { intros ch Hc. apply chal_ok_spec. auto. }
   split. { rewrite (client_public_of _ _ Hfc). exact Hpub. }
   unfold issue_code in Hiss. injection Hiss as _ <-.
@@ -52,6 +56,43 @@ Proof.
   - unfold aud_with. cbn. rewrite String.eqb_refl. cbn. auto.
   - intros x. destruct (c_jwt c); [|discriminate]. intros [= <-].
     apply find_client_id in Hfc as [Hid _]. exact Hid.
+Qed.
+
+(* a code_challenge carried by the signed Request Object is in force: its method is the
+   object's, else the query's, else plain *)
+Lemma eff_chal_object chal x ro :
+  x_ro x = Some ro -> ro_cc ro <> "" ->
+  eff_chal chal x = Some (match ro_cm ro with
+                          | Some m => m
+                          | None => match chal with Some c => fst c | None => false end
+                          end, ro_cc ro).
+Proof.
+  intros Hx Hcc. unfold eff_chal. rewrite Hx. apply String.eqb_neq in Hcc.
+  cbv zeta. rewrite Hcc. cbv iota. rewrite Hcc. reflexivity.
+Qed.
+
+Lemma request_object_pkce ops h s : exec H cf ops = (h, s) ->
+  forall h1 e h2 pl f cr code uri ver t,
+    h = h1 ++ e :: h2 -> e_op e = TokenCode pl f cr code uri ver -> e_out e = OTokens t ->
+  exists c n eau cl uri0 scopes0 nonce0 chal0 x,
+    code = Some c
+    /\ (exists ecb, In ecb h1 /\ e_op ecb = Callback n /\ e_out ecb = OCode c)
+    /\ In eau h1 /\ e_op eau = Authorize cl uri0 scopes0 nonce0 chal0 x /\ e_out eau = OAuthz (Some n)
+    /\ forall ro, x_ro x = Some ro -> ro_cc ro <> "" ->
+          ver <> ""
+          /\ (if match ro_cm ro with
+                 | Some m => m
+                 | None => match chal0 with Some ch => fst ch | None => false end
+                 end then H ver else ver) = ro_cc ro.
+Proof.
+  intros Hex h1 e h2 pl f cr code uri ver t Heq Hop Hout.
+  destruct (exchange_sound ops h s Hex h1 e h2 pl f cr code uri ver t Heq Hop Hout)
+    as [c [q [Hc [Hcb [_ [_ [_ [Hau [_ [_ [Hch _]]]]]]]]]]].
+  destruct Hau as [eau [uri0 [scopes0 [nonce0 [chal0 [A1 [A2 [_ [_ [_ [A6 A7]]]]]]]]]]].
+  exists c, (q_id q), eau, (q_client q), uri0, scopes0, nonce0, chal0, (q_extra q).
+  repeat (split; [solve [auto] | ]).
+  intros ro Hx Hcc. rewrite (eff_chal_object chal0 _ ro Hx Hcc) in A6.
+  destruct (Hch _ A6) as [B1 B2]. cbn [fst snd] in B2. auto.
 Qed.
 
 Lemma single_use ops h s : exec H cf ops = (h, s) ->
@@ -69,7 +110,7 @@ Proof.
   apply trans_code_inv in Hstep as [cd [q [cl [[= <-] [Hcr _]]]]].
   destruct (code_req_in _ _ _ Hcr) as [Hcin _].
   assert (Hin1 : In e1 (h1 ++ e1 :: h2)) by (apply in_app_iff; right; now left).
-  destruct (i_used _ _ Hr e1 pl1 f1 cr1 c u1 v1 Hin1 Ho1 Hk1) as [_ Hno].
+  destruct (i_used _ _ _ Hr e1 pl1 f1 cr1 c u1 v1 Hin1 Ho1 Hk1) as [_ Hno].
   exact (Hno _ Hcin).
 Qed.
 
@@ -84,7 +125,7 @@ Proof.
   apply trans_callback_inv in Hstep as [q [Hq Hd]].
   exists q. split; [exact Hq|]. split; [exact Hd|].
   destruct (find_req_in _ _ _ Hq) as [Hqin Hid].
-  destruct (i_req _ _ Hr1 _ Hqin) as [_ [_ Hlog]]. rewrite Hid in Hlog. auto.
+  destruct (i_req _ _ _ Hr1 _ Hqin) as [_ [_ Hlog]]. rewrite Hid in Hlog. auto.
 Qed.
 
 Lemma not_done_no_code_step r s n :
@@ -101,6 +142,31 @@ Lemma code_refusal_keeps_state r s pl f cr code uri ver s' x :
   step H cf r s (TokenCode pl f cr code uri ver) = (s', x) -> is_tokens x = false -> s' = s.
 Proof. intros Hs Hk. apply step_trans in Hs. eapply trans_code_refused; eauto. Qed.
 
+(* a request is judged on what it carries itself: whatever the history before it (e.g. an exchange
+   by the same client with full credentials, verifier and redirect_uri immediately before), an
+   exchange that does not itself prove the client of the code's request, or presents another
+   redirect_uri, or no matching verifier for a challenge, is refused and changes nothing *)
+Lemma incomplete_exchange_refused ops h s : exec H cf ops = (h, s) ->
+  forall h1 e h2 pl f cr c uri ver q,
+    h = h1 ++ e :: h2 -> e_op e = TokenCode pl f cr (Some c) uri ver ->
+    code_req (e_pre e) c = Some q ->
+    (cred_proves cf cr (q_client q) = false \/ uri <> q_uri q
+     \/ (exists ch, q_chal q = Some ch /\ (ver = "" \/ (if fst ch then H ver else ver) <> snd ch))) ->
+    is_tokens (e_out e) = false /\ e_post e = e_pre e.
+Proof.
+  intros Hex h1 e h2 pl f cr c uri ver q Heq Hop Hcq Hbad.
+  destruct (e_out e) as [| | | | |t| | | |] eqn:Hout.
+  6: { exfalso. apply exec_reach in Hex. destruct (reach_split H cf h s Hex h1 e h2 Heq) as [_ Hstep].
+       apply step_trans in Hstep. rewrite Hop, Hout in Hstep.
+       apply trans_code_inv in Hstep as [cd [q2 [c2 [[= <-] [Hcr2 [_ [Hp [Hu [Hch _]]]]]]]]].
+       rewrite Hcq in Hcr2. injection Hcr2 as <-.
+       destruct Hbad as [Hnp | [Hnu | [ch [Hc [Hv | Hv]]]]]; [congruence | congruence | |];
+         apply Hch in Hc; apply chal_ok_spec in Hc as [B1 B2]; congruence. }
+  all: split; [reflexivity|];
+    apply exec_reach in Hex; destruct (reach_split H cf h s Hex h1 e h2 Heq) as [_ Hstep];
+    rewrite Hop in Hstep; eapply code_refusal_keeps_state; eauto; rewrite Hout; reflexivity.
+Qed.
+
 (* where the parameters travel (body, query string, both with conflicting values) is irrelevant *)
 Lemma placement_irrelevant r s o :
   step H cf r s o = step H cf r s
@@ -115,7 +181,7 @@ End T.
 
 (* ---- non-vacuity: a concrete history in which every hypothesis above is met ---- *)
 Definition ex_cfg : cfg :=
-  {| f_post := true; f_pkjwt := true; f_refresh := true;
+  {| f_post := true; f_pkjwt := true; f_refresh := true; f_reqobj := true; f_keep := false;
      clients := [ {| c_id := "web"; c_secret := "s3cret"; c_auth := AM_Basic; c_redirects := ["https://web/cb"];
                      c_code := true; c_refresh := true; c_jwt := false |};
                   {| c_id := "spa"; c_secret := ""; c_auth := AM_None; c_redirects := ["https://spa/cb"];
@@ -145,14 +211,30 @@ Definition ex_ops : list (router * op) :=
     (Legacy, DropRefresh "web");
     (Legacy, TokenRefresh P_grant_query (Basic "web" "s3cret") (Some 6) []);
     (* an id_token_hint gives the request a subject, not a login: the callback yields no code *)
-    (Provider, Authorize "web" "https://web/cb" ["openid"] "n-3" None {| x_hint := Some (Some "alice"); x_prompt := ["login"] |});
+    (Provider, Authorize "web" "https://web/cb" ["openid"] "n-3" None {| x_hint := Some (Some "alice"); x_prompt := ["login"]; x_ro := None |});
     (Legacy, Callback 10);
-    (Legacy, Authorize "web" "https://web/cb" ["openid"] "n-4" None {| x_hint := None; x_prompt := ["none"] |}) ].
+    (Legacy, Authorize "web" "https://web/cb" ["openid"] "n-4" None {| x_hint := None; x_prompt := ["none"]; x_ro := None |});
+    (* the PKCE challenge travels inside a signed Request Object, without a method (= plain); the
+       object also supersedes the nonce.  No verifier: refused; wrong verifier: refused *)
+    (Legacy, Authorize "web" "https://web/cb" ["openid"] "n-5" None
+               {| x_hint := None; x_prompt := [];
+                  x_ro := Some {| ro_ok := true; ro_uri := ""; ro_scopes := []; ro_nonce := "n-obj"; ro_cc := "v9"; ro_cm := None |} |});
+    (Legacy, Login 11 "alice" 11);
+    (Legacy, Callback 11);
+    (Provider, TokenCode P_body None (Basic "web" "s3cret") (Some 3) "https://web/cb" "");
+    (Legacy, TokenCode P_body None (Basic "web" "s3cret") (Some 3) "https://web/cb" "");
+    (Legacy, TokenCode P_body None (Basic "web" "s3cret") (Some 3) "https://web/cb" "v8");
+    (Provider, TokenCode P_body None (Basic "web" "s3cret") (Some 3) "https://web/cb" "v9");
+    (* an object that does not verify: no request *)
+    (Provider, Authorize "web" "https://web/cb" ["openid"] "n-6" None
+               {| x_hint := None; x_prompt := [];
+                  x_ro := Some {| ro_ok := false; ro_uri := ""; ro_scopes := []; ro_nonce := ""; ro_cc := "v9"; ro_cm := None |} |}) ].
 
 Example history_nonvacuous :
   map is_tokens (outs ex_H ex_cfg ex_ops)
   = [false; false; false; false; false; false; true; false; false; true; false; true;
-     false; false; false; false; true; false; false; false; false; false; false]
+     false; false; false; false; true; false; false; false; false; false; false;
+     false; false; false; false; false; false; true; false]
   /\ nth_error (outs ex_H ex_cfg ex_ops) 1 = Some OCbErr
   /\ nth_error (outs ex_H ex_cfg ex_ops) 4 = Some (OErr 4 E_grant)
   /\ nth_error (outs ex_H ex_cfg ex_ops) 5 = Some (OErr 4 E_request)
@@ -163,5 +245,10 @@ Example history_nonvacuous :
   /\ nth_error (outs ex_H ex_cfg ex_ops) 19 = Some (OErr 4 E_unauthorized)
   /\ nth_error (outs ex_H ex_cfg ex_ops) 20 = Some (OAuthz (Some 10))
   /\ nth_error (outs ex_H ex_cfg ex_ops) 21 = Some OCbErr
-  /\ nth_error (outs ex_H ex_cfg ex_ops) 22 = Some (OAuthz None).
+  /\ nth_error (outs ex_H ex_cfg ex_ops) 22 = Some (OAuthz None)
+  /\ nth_error (outs ex_H ex_cfg ex_ops) 26 = Some (OErr 4 E_request)
+  /\ nth_error (outs ex_H ex_cfg ex_ops) 27 = Some (OErr 4 E_request)
+  /\ nth_error (outs ex_H ex_cfg ex_ops) 28 = Some (OErr 4 E_grant)
+  /\ option_map (fun x => match x with OTokens t => t_nonce t | _ => "" end) (nth_error (outs ex_H ex_cfg ex_ops) 29) = Some "n-obj"
+  /\ nth_error (outs ex_H ex_cfg ex_ops) 30 = Some (OAuthz None).
 Proof. vm_compute. repeat split. Qed.
